@@ -161,6 +161,9 @@ func checkC14(c *Ctx, r *Report, tier string) {
 	r.Rule("C14.R7", "a follower that catches up by snapshot gets the catalogue: the cached snapshot is the persisted one, payload included; an acknowledged catalogue change is on disk: persist dominates every apply site of the Ready loop", 3)
 	cachedSnapshotIsTheWrittenOne(c, r, "C14.R7")
 	borrow(c, r, "C03", "C03.R1", "C14.R7", "")
+	r.Rule("C14.R8", "the replica assignment is the same function of the log on every node, and a restarted member keeps receiving the catalogue: applying a replica change always rewrites the member list (borrowed from C17.R5); the join handshake runs on every start (borrowed from C20.R6)", 2)
+	borrow(c, r, "C17", "C17.R5", "C14.R8", "member-list")
+	borrow(c, r, "C20", "C20.R6", "C14.R8", "")
 	// R4
 	fDatasets := c.Field("storage", "DatasetManager", "datasets")
 	fParts := c.Field("storage", "Dataset", "partitions")
@@ -267,6 +270,8 @@ func checkC20(c *Ctx, r *Report, tier string) {
 	joinIsUnconditional(c, r, "C20.R6")
 	r.Rule("C20.R7", "a restarted member recovers real addresses: an address-less bootstrap entry replayed from the log does not shadow the address learned from the join handshake", 1)
 	emptyAddressDoesNotShadow(c, r, "C20.R7")
+	r.Rule("C20.R8", "a member comes back as itself: every node id handed out at start-up is the stored one or has just been stored", 1)
+	nodeIdentityPersisted(c, r, "C20.R8")
 	r.Rule("C20.R2", "the address travels in the entry: the join proposal stores its address argument in ConfChange.Context; the handler hands string(cc.Context) and cc.NodeID of the same unmarshalled change to the address book; the join handler proposes before it answers and answers with the member list plus the joiner", 3)
 	r.Rule("C20.R3", "the zero group's snapshot covers the address book and the conf state (frozen table: cluster.Conn.addresses, RaftGroup.raftConfState)", 2)
 	r.Rule("C20.R4", "a membership change is acknowledged only after it is applied: a function that proposes a ConfChange on behalf of an RPC waits, before any success return, on something only the ConfChange handler signals", 2)
